@@ -39,7 +39,7 @@ def run(ctx):
         return
     kp = S.key_param(S.aborting)
     for g, bb, t, m_ in S.cancel_sites:
-        rs = P.root(P.operand(g, t['args'][kp - 1], at=bb))
+        rs = P.root(P.operand(g, t['args'][kp - 1], at=bb), through_params=True, callers={x.id for x in reachable_local_fns(F, S.poll_next)})
         ok = bool(rs) and all(S.is_transport_item(r) and ('v', 'Cancel') in p and P.fpath(p)[-1:] == ('request_id',) for r, p in rs)
         R.ob('C04.cancel', ('<BaseChannel as Stream>::poll_next', 'cancels the id named by the peer'), ok,
              'the id removed is the request_id of the Cancel message just read from the transport', [g.loc(t)], str([P.describe(r) + str(list(norm_path(p))) for r, p in rs]))
